@@ -31,6 +31,9 @@ type pendRef struct {
 	Unb  []refUnb
 	Red  []refRed
 	Gift map[string]*big.Int
+	// Restarted: the chain was re-created from a genesis export while a merged redelegation record (two sources, one
+	// destination, one block) was pending; the export keeps only the record's first source (K-C18-merged-redelegation-record)
+	RestartedWithMergedRecord bool
 }
 
 func newPendRef() *pendRef { return &pendRef{Gift: map[string]*big.Int{}} }
@@ -48,7 +51,20 @@ func (p *pendRef) Clone() engine.Ref {
 	for k, v := range p.Gift {
 		n.Gift[k] = new(big.Int).Set(v)
 	}
+	n.RestartedWithMergedRecord = p.RestartedWithMergedRecord
 	return n
+}
+
+// onRestart notes whether a merged primary record is pending at the moment of a genesis export.
+func (p *pendRef) onRestart() {
+	seen := map[string]int{}
+	for _, r := range p.Red {
+		k := fmt.Sprintf("%d/%s/%d@%d", r.D, r.Denom, r.Dst, r.C)
+		if src, ok := seen[k]; ok && src != r.Src {
+			p.RestartedWithMergedRecord = true
+		}
+		seen[k] = r.Src
+	}
 }
 
 func (u refUnb) key() string {
@@ -67,6 +83,9 @@ func (p *pendRef) Digest() []byte {
 		ks = append(ks, "R"+r.key())
 	}
 	sort.Strings(ks)
+	if p.RestartedWithMergedRecord {
+		ks = append(ks, "restarted-with-merged-record")
+	}
 	return []byte(strings.Join(ks, ";"))
 }
 
